@@ -337,3 +337,31 @@ def project_table(attrs, shape, vals, onto):
     arr = arr.sum(axis=drop) if drop else arr
     rest = [a for a in attrs if a in onto]
     return np.transpose(arr, [rest.index(a) for a in onto])
+
+
+
+def max_abs_message(obj):
+    """largest |entry| over the persisted messages of a RegionGraph / FactorGraph object (inf if any is not finite)"""
+    import numpy as np
+
+    def walk(x):
+        if isinstance(x, dict):
+            for v in x.values():
+                yield from walk(v)
+        elif isinstance(x, (tuple, list)):
+            for v in x:
+                yield from walk(v)
+        elif hasattr(x, 'values') and hasattr(x, 'domain'):
+            yield x
+    m = 0.0
+    for f in walk(getattr(obj, 'messages', None)):
+        a = np.asarray(f.values, dtype=float)
+        if a.size == 0:
+            continue
+        if not np.all(np.isfinite(a)):
+            return float('inf')
+        m = max(m, float(np.abs(a).max()))
+    return m
+
+
+DIVERGED = 1e12      # messages of this magnitude absorb log(total) in double precision: the cause of the recorded normalisation findings
